@@ -344,6 +344,18 @@ class Dict(dict, base.Symbolic, pg_typing.CustomTyping):
       return self.sym_parent
     return self
 
+  def _relocate_if_symbolic(self, key: Union[str, int], value: Any) -> Any:
+    if (self._as_object_attributes_container
+        and self.sym_parent is None
+        and isinstance(value, base.Symbolic)
+        and value.sym_parent is None
+        and any(v is value for k, v in dict.items(self) if k != key)):
+      # NOTE: the attribute container of an object under construction has no
+      # parent to hand to its members yet, so a node passed for two arguments
+      # still looks like a root: insert a copy, as `pg.Dict(x=n, y=n)` does.
+      value = value.clone()
+    return super()._relocate_if_symbolic(key, value)
+
   def _sym_rebind(
       self, path_value_pairs: typing.Dict[utils.KeyPath, Any]
   ) -> List[base.FieldUpdate]:
